@@ -138,7 +138,7 @@ example (a b : List Nat) (hs : (a = [97] ∧ b = [98, 99]) ∨ (a = [97, 98] ∧
     exact ⟨_, hm.2.1⟩
   have key := fun a b hchars hna hnb =>
     C14_split_ascii_found_src exSorter exSorter_ok toyU Gen.lang_en toyStem toyU_facts toyU_asciiFacts
-      toyU_spaceFacts tablesOK_en asciiFree_en spaceFree_en (fun _ => toyStem_bounded _) exOpsS hops
+      toyU_spaceFacts tablesOK_en asciiFree_en spaceFree_en (toyStemHyp _ (by decide)) exOpsS hops
       (by decide +kernel) 0
       { ix := 0, id := 7, title := tokenizeRecord Gen.srcProg exEnvE [65, 98, 99], rating := 1 }
       (by decide +kernel)
